@@ -54,6 +54,10 @@ pub trait Crdt {
     fn own_clock(_s: &Self::S) -> Option<Clock> {
         None
     }
+    /// C12 (`RO`): the sequence of element identities a state shows (`None` = the type is not a sequence)
+    fn elements(_s: &Self::S) -> Option<Vec<String>> {
+        None
+    }
 }
 
 pub trait Runner {
@@ -419,6 +423,41 @@ impl<T: Crdt> Machine<T> {
                     }
                 }
                 Some(format!("absorb=ok n={}", n))
+            }
+            // relative-order oracle (C12): over all pairs of replicas / snapshots the common elements appear in the
+            // same relative order, and no element occurs twice in one state
+            "RO" => {
+                let mut all: Vec<(String, Vec<String>)> = vec![];
+                for (i, s) in self.reps.iter().enumerate() {
+                    match T::elements(s) {
+                        Some(e) => all.push((format!("r{i}"), e)),
+                        None => return Some("noro".into()),
+                    }
+                }
+                for (n, (s, _)) in self.snaps.iter() {
+                    match T::elements(s) {
+                        Some(e) => all.push((format!("s{n}"), e)),
+                        None => return Some("noro".into()),
+                    }
+                }
+                for (l, e) in all.iter() {
+                    let set: BTreeSet<&String> = e.iter().collect();
+                    if set.len() != e.len() {
+                        return Some(format!("ro=FAIL:dup:{}", l));
+                    }
+                }
+                let mut pairs = 0;
+                for i in 0..all.len() {
+                    for j in i + 1..all.len() {
+                        let a: Vec<&String> = all[i].1.iter().filter(|x| all[j].1.contains(x)).collect();
+                        let b: Vec<&String> = all[j].1.iter().filter(|x| all[i].1.contains(x)).collect();
+                        if a != b {
+                            return Some(format!("ro=FAIL:{}:{}", all[i].0, all[j].0));
+                        }
+                    }
+                    pairs += all.len() - i - 1;
+                }
+                Some(format!("ro=ok pairs={}", pairs))
             }
             // end of case: convergence oracle on the implementation – every pair of replicas /
             // snapshots with the same knowledge set must show the same observation
